@@ -629,6 +629,10 @@ fn run_merge(base: &std::path::Path, case: &Case, plant: Plant) -> Result<MergeO
                         ("dirty-read", foreign.unwrap().kind())
                     } else if comm_res == got && late.is_some() {
                         ("snapshot-violation", late.unwrap().kind())
+                    } else if let Some(w) = m.writes.iter().rev().find(|w| w.key == k && w.handle != h && w.status == Status::RolledBack) {
+                        // the row is not what the committed history says after another handle's rollback
+                        // (its undo wrote a pre-image over a later committed write)
+                        ("lost-update", w.kind())
                     } else {
                         ("wrong-result", "unknown".to_string())
                     };
